@@ -377,7 +377,12 @@ func (s *Sess) genOp() *Op {
 	case OpSymlink:
 		op.H = s.dirHandle()
 		op.Name = s.name()
-		op.Target = r.PickS([]string{"", "t", "/some/where", longName(200, 'L'), longName(1000, 'M'), "rel/../path"})
+		op.Target = r.PickS([]string{"", "t", "/some/where", longName(200, 'L'), longName(1000, 'M'), "rel/../path", longName(4096, 'B'), longName(4097+r.Intn(9000), 'N')})
+		if st := s.srv.N.VerifFsState(); st.Balloc.NumFree() < 6 && r.Intn(2) == 0 {
+			// the disk is nearly full: a target that needs one block more than
+			// there is (the request must fail as a whole)
+			op.Target = longName(int(st.Balloc.NumFree())*BlockSize+1+r.Intn(3000), 'E')
+		}
 	case OpRemove, OpRmdir:
 		op.H = s.dirHandle()
 		if r.Intn(15) == 0 {
@@ -412,6 +417,32 @@ func (s *Sess) genOp() *Op {
 				for n, id := range d.Ents {
 					if s.m.Objs[id].Kind == KDir && s.m.Objs[id].FH != nil && string(s.m.Objs[id].FH) != string(op.H2) {
 						op.Name = n
+					}
+				}
+			}
+		}
+		if r.Intn(5) == 0 {
+			// a directory moves to another parent (any other directory, its own
+			// descendants included); sometimes over an existing empty directory
+			var dirs []*MObj
+			for _, o := range s.m.LiveObjs() {
+				if o.Kind == KDir && o.FH != nil {
+					dirs = append(dirs, o)
+				}
+			}
+			if len(dirs) >= 3 {
+				src := dirs[1+r.Intn(len(dirs)-1)]
+				par := s.m.Objs[src.Parent]
+				dst := dirs[r.Intn(len(dirs))]
+				if par != nil && par.FH != nil && par.Live {
+					for n, id := range par.Ents {
+						if id == src.ID {
+							op.H, op.Name, op.H2 = par.FH, n, dst.FH
+							op.Name2 = s.name()
+							if r.Intn(3) == 0 {
+								op.Name2 = s.existingName(op.H2)
+							}
+						}
 					}
 				}
 			}
@@ -509,8 +540,24 @@ func (s *Sess) argClass(op *Op) string {
 		}
 	case OpCreate, OpMkdir, OpSymlink, OpRename, OpLookup, OpRemove, OpRmdir:
 		n := op.Name
+		if op.K == OpSymlink && len(op.Target) > BlockSize {
+			c += "multiblock-target"
+			if free := s.srv.N.VerifFsState().Balloc.NumFree(); free > 0 && uint64(len(op.Target)) > free*BlockSize {
+				c += "-larger-than-free-space"
+			}
+		}
 		if op.K == OpRename {
 			n = op.Name2
+			fd, td := s.m.Obj(op.H), s.m.Obj(op.H2)
+			if fd != nil && td != nil && fd.ID != td.ID && fd.Kind == KDir && td.Kind == KDir {
+				if src := s.m.lookupIn(fd, op.Name); src != nil && src.Kind == KDir && op.Name != "." && op.Name != ".." {
+					if s.m.isAncestor(src, td) {
+						c += "dir-into-own-subtree"
+					} else {
+						c += "dir-to-other-parent"
+					}
+				}
+			}
 		}
 		switch {
 		case n == "" || n == "." || n == "..":
